@@ -249,7 +249,7 @@ pub fn check_box_seq(c: &BoxSeq) -> CaseResult {
     Ok(CaseOk::new(innovations >= 20).label(class).label_if(c.init.angle.is_some(), "rotated"))
 }
 
-fn box_seq(extreme: bool) -> impl Strategy<Value = BoxSeq> {
+pub fn box_seq(extreme: bool) -> impl Strategy<Value = BoxSeq> {
     // motion modes: 0 constant, 1 linear, 2 accelerating, 3 jitter, 4 grow, 5 shrink, 6 rotate
     (
         (0.005f32.ln()..0.5f32.ln()).prop_map(|x: f32| x.exp()),
@@ -425,7 +425,7 @@ pub fn check_point_seq(c: &PointSeq) -> CaseResult {
     Ok(CaseOk::new(innovations >= 20).label_if(ss.len() > 1, "vector"))
 }
 
-fn point_seq() -> impl Strategy<Value = PointSeq> {
+pub fn point_seq() -> impl Strategy<Value = PointSeq> {
     (
         (0.005f32.ln()..0.5f32.ln()).prop_map(|x: f32| x.exp()),
         (0.0005f32.ln()..0.05f32.ln()).prop_map(|x: f32| x.exp()),
@@ -481,7 +481,7 @@ pub fn check_cost(c: &CostCase) -> CaseResult {
     Ok(CaseOk::new(between))
 }
 
-fn cost_case() -> impl Strategy<Value = CostCase> {
+pub fn cost_case() -> impl Strategy<Value = CostCase> {
     prop_oneof![
         3 => (0.0f32..200.0),
         3 => (0.0f32..20.0),
